@@ -45,6 +45,10 @@ pub fn gen_stmt(
                 Err(vec![TypeErr::new(ast.pos, &msg)])
             } else if !env.in_fun {
                 Err(vec![TypeErr::new(ast.pos, "Return outside function")])
+            } else if let Some(attr) = env.unassigned.iter().min() {
+                // a constructor may only be left once every non nullable attribute is assigned to
+                let msg = format!("Non nullable attribute '{attr}' not assigned to before return");
+                Err(vec![TypeErr::new(ast.pos, &msg)])
             } else {
                 Ok(env.clone())
             }
